@@ -142,6 +142,19 @@ def swizzle_cases(tier):
                 want = {(i, j): L.in_term('v', vt, idx[j]) for i, (nm, idx) in enumerate(nl) for j in range(4)}
                 cs.append(R.Case('swizzle.simd_%s<%s>.%s4' % (tag, vt.tag, setname), [k],
                                  label_judge(sel_judge('swizzle.simd_%s<%s>' % (tag, vt.tag), 'swizzle_read_simd', k, arr, want), nl)))
+            # shorter results from an aligned source (the 2-component results fall back to the generic proxy, the 3-component ones use the shuffle):
+            # one kernel per (source, result length); a sibling element type without its fallback does not compile (existence)
+            for L_ in ((4,) if tier == 'quick' else (3, 4)):
+                vs = G.vec(L_, T, 'aligned_highp')
+                for n in (2, 3):
+                    ot = G.vec(n, T, 'aligned_highp')
+                    nl = list(names(L_, n, 'xyzw'))
+                    arr = G.Ty('arr', ot.cpp, ot.elem, ot.size * len(nl), {(i, j): i * ot.size + ot.lanes[j] for i in range(len(nl)) for j in range(n)}, T, (len(nl), n))
+                    body = ' '.join('o[%d] = %s(v->%s);' % (i, ot.cpp, nm) for i, (nm, idx) in enumerate(nl))
+                    k = K('simd_%s_%s_to%d' % (tag, vs.tag, n), [Par('o', arr, False), Par('v', vs)], body, cfg)
+                    want = {(i, j): L.in_term('v', vs, idx[j]) for i, (nm, idx) in enumerate(nl) for j in range(n)}
+                    cs.append(R.Case('swizzle.simd_%s<%s>.xyzw%d' % (tag, vs.tag, n), [k],
+                                     label_judge(sel_judge('swizzle.simd_%s<%s>' % (tag, vs.tag), 'swizzle_read_simd', k, arr, want), nl)))
     # gtx/vec_swizzle free functions (xyzw letters; source lengths 1-4)
     for T in (['float', 'int'] if tier == 'quick' else ['float', 'int', 'double', 'uint']):
         for L_ in (1, 2, 3, 4):
